@@ -14,9 +14,15 @@ echo "demo exit without=$r0 with=$r1"
 PYTHONPATH=$W /venv/bin/python -m pytest -q -p no:cacheprovider --timeout=900 --continue-on-collection-errors -rA 2>&1 | grep "^PASSED" | sort > /tmp/seedwork/$P.passed.txt
 lost=$(comm -23 /tmp/seedwork/baseline_passed.txt /tmp/seedwork/$P.passed.txt | wc -l)
 echo "passing tests lost: $lost (of $(wc -l < /tmp/seedwork/baseline_passed.txt))"
-# now the check against /repo with the patch applied
+# now the check against the patched tree: by default /repo itself (patch applied, check, reverted); with SEED_SCRATCH=1 the
+# worktree of the seed is used through VERIF_REPO so that /repo stays untouched (needed while other checks are running)
+if [ -n "${SEED_SCRATCH:-}" ]; then
+  cd /verif && VERIF_REPO=$W timeout 3000 bin/check $P ${3:-quick} > /tmp/seedwork/$P.check.log 2>&1; rc=$?
+  PYTHONPATH=$W:/verif /verif/.venv/bin/python -c "import dassh; print('checked package:', dassh.__file__)"
+else
 cd /repo && git apply "$W/patch.diff" || { echo "patch does not apply to /repo"; exit 3; }
 cd /verif && timeout 3000 bin/check $P ${3:-quick} > /tmp/seedwork/$P.check.log 2>&1; rc=$?
 cd /repo && git checkout -- . 
+fi
 echo "check exit=$rc"; grep -c "^VIOLATION" /tmp/seedwork/$P.check.log; grep "violated:" /tmp/seedwork/$P.check.log | head -3 | cut -c1-300; tail -2 /tmp/seedwork/$P.check.log | cut -c1-300
 git -C /repo status --short | grep -v egg-info
